@@ -776,8 +776,9 @@ def check_op(ck, lim, name, smi, make, renumber=True, fixed_corpus=False):
                     o0 = observe(x)
                     x.fix_resonance()
                     o1 = observe(x)
-                    if (o0['charge'], o0['h']) != (o1['charge'], o1['h']):
-                        lim.counterexample(f'charge or H {name}', 'fix_resonance-changes-composition', f'{code}: fix_resonance changes net charge or hydrogen count of a '
+                    # the recorded mechanism: net charge kept, hydrogens of a saturated onium exit dropped; a changed NET CHARGE is never this class
+                    if o0['charge'] == o1['charge'] and o1['h'] < o0['h'] and dq == 0:
+                        lim.counterexample(f'charge or H {name}', 'fix_resonance-drops-hydrogens-of-an-onium-exit', f'{code}: fix_resonance changes net charge or hydrogen count of a '
                                            'valence-valid molecule', inp, obs, exp, 'sum of charges / implicit + explicit hydrogens', replay_py=rp)
                         culprits = None
                 except Exception:
